@@ -165,7 +165,52 @@ def second_source_wired_after_the_executor_was_built(t_out, t_in, v_src, v_ext, 
     return {"self": ex, "external_inputs": None, "enforce_static_checks": enforce}
 
 
+def three_chain_declared_backwards(t_out, t_in, v_src, v_ext, enforce):
+    d = WiringDiagram()
+    d.add_module(ModuleSpec(name="c", inputs={"i": t_in}, outputs={}))
+    d.add_module(ModuleSpec(name="b", inputs={"i": t_in}, outputs={"o": t_out}))
+    d.add_module(ModuleSpec(name="a", inputs={}, outputs={"o": t_out}))
+    d.connect("a", "o", "b", "i")
+    d.connect("b", "o", "c", "i")
+    ex = DiagramExecutor(d)
+    ex.register_module("a", lambda inputs: {"o": v_src})
+    ex.register_module("b", lambda inputs: {"o": v_ext})
+    ex.register_module("c", lambda inputs: {})
+    return {"self": ex, "external_inputs": None, "enforce_static_checks": enforce}
+
+
+def diamond_join_declared_first(t_out, t_in, v_src, v_ext, enforce):
+    d = WiringDiagram()
+    d.add_module(ModuleSpec(name="join", inputs={"l": t_in, "r": t_in}, outputs={}))
+    d.add_module(ModuleSpec(name="left", inputs={"i": t_in}, outputs={"o": t_out}))
+    d.add_module(ModuleSpec(name="right", inputs={"i": t_in}, outputs={"o": t_out}))
+    d.add_module(ModuleSpec(name="top", inputs={}, outputs={"o": t_out}))
+    d.connect("top", "o", "left", "i")
+    d.connect("top", "o", "right", "i")
+    d.connect("left", "o", "join", "l")
+    d.connect("right", "o", "join", "r")
+    ex = DiagramExecutor(d)
+    ex.register_module("top", lambda inputs: {"o": v_src})
+    ex.register_module("left", lambda inputs: {"o": v_ext})
+    ex.register_module("right", lambda inputs: {"o": v_ext})
+    ex.register_module("join", lambda inputs: {})
+    return {"self": ex, "external_inputs": None, "enforce_static_checks": enforce}
+
+
 EXE = FR + "::DiagramExecutor.execute"
+contract(EXE, "C16", variant="three-chain-declared-backwards", options={"setup": "three_chain_declared_backwards"}, ghost_params=G2, raises=["WiringError"],
+         ensures={"feeders-first-each-module-once": "len(result.execution_order) == 3 and result.execution_order[0] == 'a' and result.execution_order[1] == 'b' "
+                                                    "and result.execution_order[2] == 'c'",
+                  "wires-deliver-the-source-values": "result.modules['b'].inputs['i'] is result.modules['a'].outputs['o'] and "
+                                                     "result.modules['c'].inputs['i'] is result.modules['b'].outputs['o']",
+                  "delivered-values-are-label-safe": "result.modules['c'].inputs['i'].data_type == t_in.data_type and "
+                                                     "result.modules['c'].inputs['i'].integrity.value >= t_in.integrity.value"})
+contract(EXE, "C16", variant="diamond-join-declared-first", options={"setup": "diamond_join_declared_first"}, ghost_params=G2, raises=["WiringError"],
+         ensures={"join-runs-last-each-module-once": "len(result.execution_order) == 4 and result.execution_order[0] == 'top' and result.execution_order[3] == 'join'",
+                  "both-branches-are-fed-by-the-top": "result.modules['left'].inputs['i'] is result.modules['top'].outputs['o'] and "
+                                                      "result.modules['right'].inputs['i'] is result.modules['top'].outputs['o']",
+                  "join-gets-both-branch-outputs": "result.modules['join'].inputs['l'] is result.modules['left'].outputs['o'] and "
+                                                   "result.modules['join'].inputs['r'] is result.modules['right'].outputs['o']"})
 contract(EXE, "C16", variant="chain-wired-after-construction", options={"setup": "chain_wired_after_the_executor_was_built"}, ghost_params=G2, raises=["WiringError"],
          ensures={"feeder-runs-first-each-module-once": "len(result.execution_order) == 2 and result.execution_order[0] == 'src' and result.execution_order[1] == 'sink'",
                   "wire-delivers-the-source-value": "result.modules['sink'].inputs['i'] is result.modules['src'].outputs['o']"},
